@@ -7,11 +7,12 @@ VARIANTS = ['tap-hold', 'tap-hold-press', 'tap-hold-release', 'tap-hold-press-ti
             'tap-hold-release-keys', 'tap-hold-except-keys']
 
 
-def th_cfg(variant, tt, H, conc, keys_list='s'):
+def th_cfg(variant, tt, H, conc, keys_list='s', shape=None):
     extra = ''
-    if variant.endswith('-timeout'):
+    shape = shape or variant
+    if shape.endswith('-timeout'):
         extra = ' z'
-    if variant.endswith('-keys'):
+    if shape.endswith('-keys'):
         extra = ' (%s)' % keys_list
     opts = 'concurrent-tap-hold yes' if conc else ''
     return '(defcfg %s)\n(defsrc a s d)\n(deflayer l0 (%s %d %d x lsft%s) 1 2)' % (opts, variant, tt, H, extra)
@@ -54,6 +55,22 @@ def gen_cases(rng, tier):
                         cases.append({'id': 'c05-grid-%d' % i, 'cfg': cfg, 'hist': toks, 'sub': 'lsim',
                                       'tags': {'variant': variant, 'H': H, 'tt': tt, 'conc': conc}})
                         i += 1
+    # every variant under its short name (the alias table is read from parser/src/cfg/list_actions.rs): the same schedule must give
+    # the same trace as under the long name
+    import re, os
+    src = open('/repo/parser/src/cfg/list_actions.rs', encoding='utf-8').read()
+    consts = dict(re.findall(r'pub const (\w+): &str = "([^"]*)";', src))
+    alias = {consts[k[:-2]]: v for k, v in consts.items() if k.endswith('_A') and k[:-2] in consts}
+    j = 0
+    for variant in VARIANTS:
+        if variant not in alias:
+            continue
+        for H in (5, 20):
+            for toks in schedules(rng, 7, H, 6 if tier == 'quick' else 100):
+                for nm, role in ((variant, 'long'), (alias[variant], 'short')):
+                    cases.append({'id': 'c05-alias-%d-%s' % (j, role), 'cfg': th_cfg(nm, 0, H, False, shape=variant), 'hist': toks, 'sub': 'lsim',
+                                  'alias_pair': 'c05-alias-%d' % j, 'role': role, 'tags': {'variant': variant, 'H': H, 'spelling': role}})
+                j += 1
     # random configs of the profile incl. two tap-hold keys interleaved
     cases += lsim_cases(rng, 'c05', 100 if tier == 'quick' else 3000, 3, tag='c05-rand')
     return cases
@@ -102,8 +119,25 @@ def oracle(c, it):
     return None
 
 
+def post(all_results, run_impl, rng, tier, stats):
+    by = {c['id']: (c, it) for c, it, mt in all_results}
+    out = []
+    n = 0
+    for cid, (c, it) in by.items():
+        if c.get('role') != 'long':
+            continue
+        o = by.get(c['alias_pair'] + '-short')
+        if not o:
+            continue
+        n += 1
+        if it != o[1]:
+            out.append((o[0], o[1], None, 'the short name of %s behaves differently from the long name on the same schedule' % c['tags']['variant']))
+    stats['alias_pairs'] = n
+    return out
+
+
 SPEC = {
-    'oracle': oracle,
+    'oracle': oracle, 'post': post,
     'id': 'C05', 'sub': 'lsim', 'gen_cases': gen_cases, 'nontrivial': trace_has_output,
     'rule': 'grid: every tap-hold variant x H x tap-repress window {0,30} x concurrent-tap-hold on/off x random consistent schedules '
             'of <=7 events over the tap-hold key and two other keys with gaps {0,1,H-1,H,H+1}; plus random C05-profile configs '
